@@ -1,6 +1,7 @@
 import MypyVerif.Model.StubSig
 import MypyVerif.Model.StubImports
 import MypyVerif.Gen.StubCfg
+import MypyVerif.Model.StubRet
 /-!
 Line-protocol driver for the C19 models (model files only).
 
@@ -13,6 +14,7 @@ Line-protocol driver for the C19 models (model files only).
   I <op>;<op>;…            ops: `F module req name[:alias] …` | `M dotted alias|- req` | `R dotted` | `X dotted`
                                 | `A module name req defined,defined,…`
       → `lines=<l>|<l>…` TAB `required=<n>,<n>…` TAB `refs=<r>,…`
+  T name TAB annotated TAB retAnn|- TAB <7 flags>   → the emitted return type, or `-`
 
 DExpr encoding (prefix, space separated): N T Fa | Nm <text> | I <n> | Fl <text> <0|1> | C | CS | S <id> |
   B <hex> | U <neg|pos|inv|not> <e> | Tu <n> <e>* | Li <n> <e>* | Se <n> <e>* | Di <n> (K <e> <e> | Sp <e>)* | O
@@ -186,6 +188,19 @@ def doI (rest : String) : String :=
   "lines=" ++ "|".intercalate (t.importLines.map lineText) ++ "\trequired=" ++
     ",".intercalate (t.required.map showDotted) ++ "\trefs=" ++ ",".intercalate refs
 
+/-- `T name TAB annotated TAB retAnn|- TAB abstract implicitlyAbstract yieldFrom yields yieldsValue yieldAssigned returnsValue` (0/1 each) -/
+def doT (rest : String) : String :=
+  match rest.splitOn "\t" with
+  | [name, ann, ret, flags] =>
+    let b := (words flags).map (· == "1")
+    let g := fun i => b.getD i false
+    let f : StubRet.FuncInfo :=
+      { name := name, annotated := ann == "1", retAnn := if ret == "-" then none else some ret,
+        abstract := g 0, implicitlyAbstract := g 1, yieldFrom := g 2, yields := g 3, yieldsValue := g 4,
+        yieldAssigned := g 5, returnsValue := g 6 }
+    (StubRet.getFuncReturn f).getD "-"
+  | _ => "bad-op"
+
 def step (line : String) : String :=
   let line := (line.dropEndWhile (· == '\n')).toString
   if line.startsWith "S " then
@@ -198,6 +213,7 @@ def step (line : String) : String :=
     | [lens, e] => doD lens e
     | _ => "bad-op"
   else if line.startsWith "I " then doI (line.drop 2).toString
+  else if line.startsWith "T " then doT (line.drop 2).toString
   else "bad-op"
 
 partial def loop (h : IO.FS.Stream) : IO Unit := do
